@@ -840,7 +840,15 @@ class Translator:
                         if ta and f.id not in ("isinstance", "type", "id", "repr", "str", "print", "int"):
                             for e, k in ta:
                                 if k in ("seed", "rng", "grng"):
-                                    self.bad(where, "rng passed to builtin %s" % f.id)
+                                    submits = any(
+                                        isinstance(c, ast.Call) and (
+                                            (isinstance(c.func, ast.Name) and c.func.id == "submit") or
+                                            (isinstance(c.func, ast.Attribute) and c.func.attr == "submit"))
+                                        for c in ast.walk(fn.node))
+                                    self.bad(where, "rng passed to builtin %s%s" % (f.id, (
+                                        " -- in a function that submits tasks to a pool: a SHARED generator object handed "
+                                        "to pool tasks makes the stream each task sees depend on the pool's scheduling order"
+                                        if submits else "")))
                         for e, k in ta:
                             mark(e)
                         continue
